@@ -9,6 +9,207 @@ package server
 //@ contract recvMsg
 //@   props C21
 
+// Properties C21/C22/C23: NOTIFICATIONs and closing the connection. The state of a
+// connection (closed, NOTIFICATION written, code, subcode) is ghost state kept by
+// the model of net.Conn (see govc/ghost.go).
+//@ spec
+//@ func spec_isIdle(s state) bool {
+//@ 	_, ok := s.(*idleState)
+//@ 	return ok
+//@ }
+//@ func spec_isOpenConfirm(s state) bool {
+//@ 	_, ok := s.(*openConfirmState)
+//@ 	return ok
+//@ }
+//@ end
+
+//@ contract (*FSM).sendNotification
+//@   props C21 C22
+//@   nosafety
+//@   requires fsm.con != nil
+//@   old c0 bool = verif_closed(fsm.con)
+//@   ensures verif_notified(fsm.con) && verif_notif_code(fsm.con) == errorCode && verif_notif_sub(fsm.con) == errorSubCode
+//@   ensures verif_closed(fsm.con) == c0 && (!c0 ==> verif_notified_open(fsm.con))
+
+// A malformed message is answered with a NOTIFICATION before the connection is closed.
+//@ contract (*openSentState).msgReceived
+//@   props C21 C23
+//@   nosafety
+//@   requires s.fsm != nil && s.fsm.con != nil && opt != nil && !verif_closed(s.fsm.con)
+//@   ensures[C23] spec_isIdle(result0) ==> verif_closed(s.fsm.con)
+//@   old isNotif bool = len(data) >= 19 && data[18] == packet.NotificationMsg
+//@   call Conn.Close args recv net.Conn requires verif_notified_open(recv) || isNotif
+
+//@ contract (*openConfirmState).msgReceived
+//@   props C21 C23
+//@   nosafety
+//@   requires s.fsm != nil && s.fsm.con != nil && opt != nil && !verif_closed(s.fsm.con)
+//@   ensures[C23] spec_isIdle(result0) ==> verif_closed(s.fsm.con)
+//@   old isNotif bool = len(data) >= 19 && data[18] == packet.NotificationMsg
+//@   call Conn.Close args recv net.Conn requires verif_notified_open(recv) || isNotif
+
+//@ contract (*establishedState).msgReceived
+//@   props C21 C23
+//@   nosafety
+//@   requires s.fsm != nil && s.fsm.con != nil && opt != nil && !verif_closed(s.fsm.con)
+//@   ensures[C23] spec_isIdle(result0) ==> verif_closed(s.fsm.con)
+//@   old isNotif bool = len(data) >= 19 && data[18] == packet.NotificationMsg
+//@   call Conn.Close args recv net.Conn requires verif_notified_open(recv) || isNotif
+
+// Properties C23/C22: every handler of OpenSent, OpenConfirm and Established that
+// returns to Idle has closed the connection.
+//@ contract (*openSentState).manualStop, (*openSentState).automaticStop, (*openSentState).holdTimerExpired, (*openSentState).unexpectedMessage, (*openSentState).checkHoldtimer
+//@   props C23
+//@   nosafety
+//@   requires s.fsm != nil && s.fsm.con != nil
+//@   ensures spec_isIdle(result0) ==> verif_closed(s.fsm.con)
+
+//@ contract (*openSentState).openMsgReceived, (*openSentState).handleOpenMessage
+//@   props C23 C22
+//@   nosafety
+//@   requires s.fsm != nil && s.fsm.con != nil && openMsg != nil && s.fsm.peer != nil
+//@   ensures spec_isIdle(result0) ==> verif_closed(s.fsm.con)
+
+//@ contract (*openSentState).notification
+//@   props C23
+//@   nosafety
+//@   requires s.fsm != nil && s.fsm.con != nil && msg != nil
+//@   ensures spec_isIdle(result0) ==> verif_closed(s.fsm.con)
+
+//@ contract (*openConfirmState).manualStop, (*openConfirmState).holdTimerExpired, (*openConfirmState).keepaliveTimerExpired, (*openConfirmState).unexpectedMessage, (*openConfirmState).checkHoldtimer, (*openConfirmState).keepaliveReceived
+//@   props C23
+//@   nosafety
+//@   requires s.fsm != nil && s.fsm.con != nil
+//@   ensures spec_isIdle(result0) ==> verif_closed(s.fsm.con)
+
+//@ contract (*openConfirmState).notification
+//@   props C23
+//@   nosafety
+//@   requires s.fsm != nil && s.fsm.con != nil && msg != nil
+//@   ensures spec_isIdle(result0) ==> verif_closed(s.fsm.con)
+
+//@ contract (*establishedState).manualStop, (*establishedState).automaticStop, (*establishedState).holdTimerExpired, (*establishedState).keepaliveTimerExpired, (*establishedState).unexpectedMessage, (*establishedState).checkHoldtimer, (*establishedState).notification
+//@   props C23
+//@   nosafety
+//@   requires s.fsm != nil && s.fsm.con != nil
+//@   ensures spec_isIdle(result0) ==> verif_closed(s.fsm.con)
+
+// Property C23: message-driven transitions are those of the RFC 4271 FSM:
+// OpenSent moves on to OpenConfirm only on an OPEN, OpenConfirm to Established only
+// on a KEEPALIVE; no other message type moves a session forward.
+//@ spec
+//@ func spec_isOpenSent(s state) bool {
+//@ 	_, ok := s.(*openSentState)
+//@ 	return ok
+//@ }
+//@ func spec_msgTypeOf(data []byte) uint8 {
+//@ 	if len(data) < 19 {
+//@ 		return 0
+//@ 	}
+//@ 	return data[18]
+//@ }
+//@ end
+
+//@ contract (*openSentState).msgReceived
+//@   old t0 uint8 = spec_msgTypeOf(data)
+//@   ensures[C23] spec_isOpenConfirm(result0) ==> t0 == packet.OpenMsg
+//@   ensures[C23] !spec_isEstablished(result0) && !spec_isOpenSent(result0)
+
+//@ contract (*openConfirmState).msgReceived
+//@   old t0 uint8 = spec_msgTypeOf(data)
+//@   ensures[C23] spec_isEstablished(result0) ==> t0 == packet.KeepaliveMsg
+//@   ensures[C23] !spec_isOpenSent(result0) && !spec_isOpenConfirm(result0)
+
+//@ contract (*establishedState).msgReceived
+//@   ensures[C23] !spec_isOpenSent(result0) && !spec_isOpenConfirm(result0)
+
+//@ contract (*openSentState).notification, (*openSentState).unexpectedMessage, (*openConfirmState).notification, (*openConfirmState).unexpectedMessage, (*establishedState).notification, (*establishedState).unexpectedMessage
+//@   ensures[C23] spec_isIdle(result0)
+
+//@ contract (*openConfirmState).keepaliveReceived
+//@   ensures[C23] spec_isEstablished(result0)
+
+//@ contract (*openSentState).openMsgReceived, (*openSentState).handleOpenMessage
+//@   ensures[C23] !spec_isEstablished(result0) && !spec_isOpenSent(result0)
+
+//@ contract (*establishedState).update, (*establishedState).keepaliveReceived
+//@   ensures[C23] !spec_isOpenSent(result0) && !spec_isOpenConfirm(result0)
+
+//@ contract (*establishedState).update, (*establishedState).keepaliveReceived
+//@   props C23
+//@   nosafety
+//@   requires s.fsm != nil && s.fsm.con != nil
+//@   ensures spec_isIdle(result0) ==> verif_closed(s.fsm.con)
+
+// Property C07: whenever a handler of Established leaves Established, the
+// Adj-RIBs have been detached (uninit ran: ribsInitialized is false again).
+//@ spec
+//@ func spec_isEstablished(s state) bool {
+//@ 	_, ok := s.(*establishedState)
+//@ 	return ok
+//@ }
+//@ end
+
+//@ contract (*establishedState).manualStop, (*establishedState).automaticStop, (*establishedState).cease, (*establishedState).holdTimerExpired, (*establishedState).keepaliveTimerExpired, (*establishedState).unexpectedMessage, (*establishedState).checkHoldtimer, (*establishedState).notification, (*establishedState).keepaliveReceived
+//@   props C07
+//@   nosafety
+//@   requires s.fsm != nil && s.fsm.con != nil
+//@   ensures[C07 C23] !spec_isEstablished(result0) ==> !s.fsm.ribsInitialized
+
+//@ contract (*establishedState).msgReceived
+//@   props C07
+//@   ensures[C07 C23] !spec_isEstablished(result0) ==> !s.fsm.ribsInitialized
+
+//@ contract (*establishedState).update
+//@   props C07
+//@   nosafety
+//@   requires s.fsm != nil && s.fsm.con != nil && u != nil
+//@   ensures[C07 C23] !spec_isEstablished(result0) ==> !s.fsm.ribsInitialized
+
+// Detaching one address family works on the tables, the VRF's counters and the
+// family object; it does not write the FSM object, the state object or the
+// connection (assumed: the table code is not under contract yet).
+//@ contract (*fsmAddressFamily).dispose
+//@   trusted frame of dispose (tables are outside the contracts of this package)
+//@   requires f.fsm != nil
+//@   preserves type FSM, establishedState
+//@   preserves f.fsm.con
+
+//@ contract (*establishedState).uninit
+//@   props C07
+//@   nosafety
+//@   requires s.fsm != nil
+//@   old con0 net.Conn = s.fsm.con
+//@   ensures !s.fsm.ribsInitialized && s.fsm.con == con0
+//@   preserves type establishedState
+//@   preserves s.fsm.con
+
+// Property C20: UPDATEs are applied NLRI by NLRI: every call into the Adj-RIB-In
+// carries the prefix and the path identifier of the NLRI being processed.
+//@ contract (*fsmAddressFamily).updates
+//@   props C20
+//@   nosafety
+//@   requires u != nil
+//@   call AdjRIBIn.AddPath args cpfx *bnet.Prefix, q *route.Path vars r *packet.NLRI requires cpfx == r.Prefix && q.BGPPath.PathIdentifier == r.PathIdentifier
+
+//@ contract (*fsmAddressFamily).withdraws
+//@   props C20
+//@   nosafety
+//@   requires u != nil
+//@   call AdjRIBIn.RemovePath args cpfx *bnet.Prefix, q *route.Path vars r *packet.NLRI requires cpfx == r.Prefix && q.BGPPath.PathIdentifier == r.PathIdentifier
+
+//@ contract (*fsmAddressFamily).multiProtocolUpdate
+//@   props C20
+//@   nosafety
+//@   requires path != nil && path.BGPPath != nil && path.BGPPath.BGPPathA != nil
+//@   call AdjRIBIn.AddPath args cpfx *bnet.Prefix, q *route.Path vars n *packet.NLRI requires cpfx == n.Prefix && q.BGPPath.PathIdentifier == n.PathIdentifier
+
+//@ contract (*fsmAddressFamily).multiProtocolWithdraw
+//@   props C20
+//@   nosafety
+//@   requires path != nil && path.BGPPath != nil
+//@   call AdjRIBIn.RemovePath args cpfx *bnet.Prefix, q *route.Path vars cur *packet.NLRI requires cpfx == cur.Prefix && q.BGPPath.PathIdentifier == cur.PathIdentifier
+
 // Property C24: collision detection must recognise the states the FSM really
 // stores (constructor/recogniser agreement), and the tie-break compares BGP
 // identifiers, then AS numbers (RFC 4271 6.8, RFC 6286).
